@@ -12,6 +12,7 @@ import (
 	"github.com/mithrandie/csvq/lib/option"
 	"github.com/mithrandie/csvq/lib/parser"
 	"github.com/mithrandie/csvq/lib/value"
+	"github.com/mithrandie/csvq/lib/verifhook"
 
 	"github.com/mithrandie/ternary"
 )
@@ -122,6 +123,7 @@ func (proc *Processor) executeChild(ctx context.Context, statements []parser.Sta
 }
 
 func (proc *Processor) ExecuteStatement(ctx context.Context, stmt parser.Statement) (StatementFlow, error) {
+	verifhook.At("stmt", "")
 	if ctx.Err() != nil {
 		return TerminateWithError, ConvertContextError(ctx.Err())
 	}
